@@ -265,7 +265,13 @@ def build(recipe, side):
             resp.iterable = make_iterable(recipe["iterable"], side, items, recipe.get("raise_at"))
         _apply_cookie_ops(resp, recipe.get("cookie_ops", ()))
         return _Built(resp)
-    return recipes.build_app({"app": "response", "response": recipe}, side)
+    if recipe.get("kind") == "raw":
+        app = dict(recipe["raw"], app="raw")
+    else:
+        app = {"app": "response", "response": {k: v for k, v in recipe.items() if k != "wrap"}}
+    for kind in recipe.get("wrap", []):  # the answer travels through baize's own middleware layer(s): NextResponse is a response class too
+        app = {"app": "middleware", "kind": kind, "inner": app}
+    return recipes.build_app(app, side)
 
 
 async def _settle():
@@ -617,6 +623,7 @@ def size_cases(quick):
 SUBS = {
     "sizes": oracle_sizes,
     "responses": oracle,
+    "wrapped": oracle,
     "statuses": oracle_status,
     "filegrid": oracle,
     "sse_idle": oracle,
@@ -736,6 +743,36 @@ def filefault_cases(quick):
                         yield {"response": {"kind": "file", "name": "volatile.bin", "size": size, "chunk": chunk}, "request": rq, "fault": fault}
 
 
+def wrapped_cases():
+    """Responses that reach the gateway through baize.{wsgi,asgi}.middleware (what is emitted then is the NextResponse that
+    relays status, header lines - Set-Cookie lines separately - and body of the inner application)."""
+    cookies = [{"name": "sid", "value": "a b"}, {"name": "t", "value": "caf\xe9;x"}, {"name": "gone", "delete": True}]
+    inner = [
+        {"kind": "plain", "content": "hello", "cookies": cookies, "headers": {"x-inner": "1"}},
+        {"kind": "json", "content": {"a": 1}, "cookies": cookies[:1], "status": 201},
+        {"kind": "redirect", "url": "/n\xe9xt", "cookies": cookies},
+        {"kind": "empty", "status": 204, "cookies": cookies[:2]},
+        {"kind": "stream", "chunks": [b"a", b"", b"bc"], "cookies": cookies[:1]},
+        {"kind": "sse", "events": [{"data": "x"}, {"data": "y", "id": "1"}], "cookies": cookies[:1]},
+        {"kind": "file", "name": "f.txt", "size": 5, "chunk": 3, "cookies": cookies},
+        {"kind": "stream", "chunks": [b"a", b"b"], "raise_at": 1, "cookies": cookies[:1]},
+    ]
+    raw_headers = [
+        [["Content-Type", "text/plain"], ["Set-Cookie", "a=1; Path=/"], ["Set-Cookie", "b=2; HttpOnly"]],
+        [["Set-Cookie", "name=caf\xe9; Path=/"], ["X-Latin", "d\xe9j\xe0 vu"], ["Set-Cookie", "u=\xfc"]],
+        [["Content-Type", "text/plain"], ["Vary", "Accept"], ["Vary", "Cookie"]],
+        [],
+    ]
+    for wrap in (["identity"], ["identity", "identity"], ["add"], ["identity", "replace"]):
+        for recipe in inner:
+            for method in ("GET", "HEAD"):
+                yield {"response": dict(recipe, wrap=wrap), "request": {"method": method}}
+        for hs in raw_headers:
+            for chunks, returns in (([b"hello", b"world"], "list"), ([], "list"), ([b"x"], "generator"), ([b"", b"y"], "iter")):
+                raw = {"status": "200 OK", "headers": hs, "chunks": chunks, "returns": returns, "raises": None}
+                yield {"response": {"kind": "raw", "raw": raw, "wrap": wrap}, "request": {"method": "GET"}}
+
+
 def sse_idle_cases():
     """Event streams whose producer stays silent for several ping intervals (before the first event, between
     events, before the end): the keep-alive pings are body items like any other."""
@@ -849,6 +886,8 @@ def run(rec, only=None):
     rec.exhaustive["statuses"] = not quick
     core.drive_cases(rec, "filegrid", file_grid(quick), oracle)
     rec.exhaustive["filegrid"] = True
+    core.drive_cases(rec, "wrapped", wrapped_cases(), oracle)
+    rec.exhaustive["wrapped"] = True
     core.drive_cases(rec, "sse_idle", sse_idle_cases(), oracle)
     rec.exhaustive["sse_idle"] = True
     core.drive_cases(rec, "sse_fields", sse_field_cases(), oracle)
